@@ -15,7 +15,7 @@ func init() {
 		ID: "C10",
 		Explanation: "Decides structural necessary conditions of C10: (R-C10-1) validation first: the Store is constructed only after 'a client is set', 'names parsed without error' and not('no secrets' and 'no lookup'); every declared name is examined for emptiness over the final name list; (R-C10-2) no busy retry: every cycle of the initialisation routine that is not an iteration over a finite collection passes a call of a waiter, itself verified to block in a select on ctx.Done() and time.After(d) of its arguments; " +
 			"(R-C10-3) context observed: from a failed fetch no further fetch and no wait is reached without testing ctx.Err(), whose non-nil edge returns a non-nil error; (R-C10-4) bounded back-off: the wait duration is a loop-carried variable fed only by a positive constant and by a doubling edge-dominated by v < C, hence below 2C <= 10s; " +
-			"(R-C10-5) no re-fetch, success means complete: the fetch is edge-dominated by 'this name's entry is nil', its nil-error edge installs a fresh non-nil entry under the same name before the next iteration, every failing path either returns or increments the missing counter, and nil is returned only under counter == 0; (R-C10-6) with a file-backed client the wait is unreachable and the routine returns an error; (R-C10-7) no explicit panic or unchecked type assertion in the construction path.",
+			"(R-C10-5) no re-fetch, success means complete: the fetch is edge-dominated by 'this name's entry is nil', its nil-error edge installs a fresh non-nil entry under the same name before the next iteration, every failing path either returns or increments the missing counter, and nil is returned only under counter == 0; (R-C10-6) with a file-backed client the wait is unreachable and the routine returns an error; (R-C10-8) cached entries are only discarded wholesale when the cache is rejected, never individually at load time (a complete valid cache needs no service); (R-C10-7) no explicit panic or unchecked type assertion in the construction path.",
 		NotDecided:  "Wall-clock promptness; how many rounds a given failure script needs.",
 		Trusted:     append([]string{"time.After(d) fires after d"}, commonTrusted...),
 		Assumptions: []string{"iteration over a map or slice terminates"},
@@ -33,6 +33,8 @@ func runC10(c *eng.Ctx, tier string) {
 	}
 	c10Validation(c, ns)
 	c10Init(c, init)
+	// R-C10-8: a valid cache entry is used as it is
+	checkPrepubRemovals(c, "R-C10-8")
 	// R-C10-7
 	for _, f := range []*ssa.Function{ns, init, p.Method(setecPkg, "StoreConfig", "secretNames"), p.Method(setecPkg, "Store", "loadCache"), p.Method(setecPkg, "Store", "isActiveSetValid")} {
 		if f == nil {
@@ -124,6 +126,42 @@ func c10Validation(c *eng.Ctx, ns *ssa.Function) {
 	if sn == nil {
 		c.Undecided("R-C10-1", nil, 0, "setec.StoreConfig.secretNames", "anchor does not resolve")
 		return
+	}
+	// the list handed to the constructor is deduplicated AS A WHOLE (listed and
+	// struct-tagged names together): a duplicate would meet the nil stub of its
+	// twin in the constructor's declare loop
+	isSlicesCall := func(v ssa.Value, name string) (*ssa.Call, bool) {
+		call, _ := eng.TupleCall(v)
+		if call == nil {
+			return nil, false
+		}
+		cal := call.Call.StaticCallee()
+		if cal == nil {
+			return nil, false
+		}
+		o := cal
+		if cal.Origin() != nil {
+			o = cal.Origin()
+		}
+		return call, o.Pkg != nil && o.Pkg.Pkg.Path() == "slices" && o.Name() == name
+	}
+	for _, r := range eng.Returns(sn) {
+		rv := eng.RetVals(r)
+		if !eng.IsNilConst(eng.Origin(rv[2])) {
+			continue
+		}
+		cc, isCompact := isSlicesCall(rv[0], "Compact")
+		sorted := false
+		if isCompact {
+			eng.Instrs(sn, func(in ssa.Instruction) {
+				if call, ok := in.(*ssa.Call); ok {
+					if _, isSort := isSlicesCall(call, "Sort"); isSort && eng.InstrDominates(call, cc) && (call.Call.Args[0] == cc.Call.Args[0] || eng.Same(call.Call.Args[0], cc.Call.Args[0])) {
+						sorted = true
+					}
+				}
+			})
+		}
+		c.Check(isCompact && sorted, "R-C10-1", sn, r.Pos(), "name list returned by secretNames: "+eng.ValStr(rv[0]), "the complete list (listed and struct-tagged names) is sorted and compacted before it is returned (no duplicate reaches the constructor)", "")
 	}
 	okEmpty := false
 	for _, r := range eng.Returns(sn) {
